@@ -2,6 +2,7 @@
 import io
 import json
 import math
+import operator
 import os
 import shutil
 import tempfile
@@ -382,6 +383,26 @@ def catalogue():
         "sum+term": (["sum", "term"], lambda r, a, b: a + b, "sum"),
         "term+sum": (["term", "sum"], lambda r, a, b: a + b, "sum"),
         "sum-sum": (["sum", "sum"], lambda r, a, b: a - b, "sum"),
+        # the augmented spellings of the same operations: `x += y` on a name bound to a shared object is "adding"
+        # too, and every other name bound to that object must still see the old value
+        "sum+=sum": (["sum", "sum"], lambda r, a, b: operator.iadd(a, b), "sum"),
+        "sum+=term": (["sum", "term"], lambda r, a, b: operator.iadd(a, b), "sum"),
+        "sum+=scalar": (["sum"], lambda r, a: operator.iadd(a, r.choice([2, -0.5, 1j])), "sum"),
+        "sum-=term": (["sum", "term"], lambda r, a, b: operator.isub(a, b), "sum"),
+        "sum-=sum": (["sum", "sum"], lambda r, a, b: operator.isub(a, b), "sum"),
+        "sum*=scalar": (["sum"], lambda r, a: operator.imul(a, r.choice([2, -0.5, 1j])), "sum"),
+        "sum*=sum": (["sum", "sum"], lambda r, a, b: operator.imul(a, b), "sum"),
+        "sum*=term": (["sum", "term"], lambda r, a, b: operator.imul(a, b), "sum"),
+        "sum/=scalar": (["sum"], lambda r, a: operator.itruediv(a, 4.0), "sum"),
+        "sum**=k": (["sum"], lambda r, a: operator.ipow(a, r.randint(0, 3)), None),
+        "term+=term": (["term", "term"], lambda r, a, b: operator.iadd(a, b), "sum"),
+        "term-=term": (["term", "term"], lambda r, a, b: operator.isub(a, b), "sum"),
+        "term*=term": (["term", "term"], lambda r, a, b: operator.imul(a, b), "term"),
+        "term*=scalar": (["term"], lambda r, a: operator.imul(a, r.choice([2, -0.5, 1j])), "term"),
+        "term/=scalar": (["term"], lambda r, a: operator.itruediv(a, 2.0), "term"),
+        "term**=k": (["term"], lambda r, a: operator.ipow(a, r.randint(0, 4)), None),
+        "circuit+=circuit": (["circ", "circ"], lambda r, a, b: operator.iadd(a, b), "circ"),
+        "circuit+=operation": (["circ", "circ"], lambda r, a, b: operator.iadd(a, b.operations[0]), "circ"),
         "sum*sum": (["sum", "sum"], lambda r, a, b: a * b, "sum"),
         "sum*term": (["sum", "term"], lambda r, a, b: a * b, "sum"),
         "term*sum": (["term", "sum"], lambda r, a, b: a * b, "sum"),
